@@ -417,6 +417,25 @@ theorem eq_mapping_iff [DecidableEq V] (s : OMD K V) (h : Inv s) (m : List (K ×
     (∃ b, s.eqMapping m = .ok b ∧ (b = true ↔ ∀ k, dget k m = Spec.last k s.cells)) :=
   ⟨_, eqMapping_spec h m, spec_eqMapping_iff s.cells m hm⟩
 
+/-- the fix of round 3 (`selfk not in other or other[selfk] != …`) changed nothing for mappings without
+    `__missing__`: there the old loop (`other[selfk]` alone) and the new one agree on every input; with a
+    `__missing__` answer the old loop could say True for a mapping that lacks a key (the example below) -/
+theorem eq_mapping_fix_conservative [DecidableEq V] (s : OMD K V) (m : List (K × V)) :
+    s.eqMappingOld m none = s.eqMapping m := by
+  unfold OMD.eqMappingOld OMD.eqMapping
+  split
+  · rfl
+  · generalize s.keys = ks
+    induction ks with
+    | nil => rfl
+    | cons k r ih =>
+      simp only [OMD.eqMapLoopOld, OMD.eqMapLoop]
+      cases dget k m with
+      | none => rfl
+      | some mv =>
+        simp only [Option.orElse]
+        rw [ih]
+
 /-- `omd != other` is the negation of `omd == other`, for OMDs and for mappings -/
 theorem ne_iff [DecidableEq V] (s t : OMD K V) (hs : Inv s) (ht : Inv t) (m : List (K × V)) :
     (s.neOMD t = true ↔ s.cells ≠ t.cells) ∧
@@ -756,5 +775,12 @@ example : let bad : Own Nat Nat := ⟨[(7, 0)], [(0, [1, 2])], 1, [0]⟩
 
 example : (OMD.fromPairs [(0, 1), (1, 2), (0, 3)] : OMD Nat Nat).reprText "OrderedMultiDict" toString toString =
     "OrderedMultiDict([(0, 1), (1, 2), (0, 3)])" := by decide
+
+/-- known finding C01-eq-mapping-missing, in the model: before the fix `OrderedMultiDict([(1, 0)]) == Counter({3: 0})`
+    was True (the Counter answers 0 for the key 1 it lacks); the loop after the fix says False, as the statement demands -/
+example : (OMD.fromPairs [(1, 0)] : OMD Nat Nat).eqMappingOld [(3, 0)] (some 0) = .ok true ∧
+    (OMD.fromPairs [(1, 0)] : OMD Nat Nat).eqMapping [(3, 0)] = .ok false ∧
+    ¬ (∀ k, dget k [(3, 0)] = Spec.last k (OMD.fromPairs [(1, 0)] : OMD Nat Nat).cells) :=
+  ⟨rfl, rfl, fun h => by have := h 1; simp [dget, Spec.last, Spec.valsOf, OMD.fromPairs, OMD.addAll, OMD.add, OMD.empty, isK] at this⟩
 
 end C01
